@@ -329,7 +329,7 @@ def check_trusted_list(unit, found):
     def norm(s):
         s = re.sub(r'^[\w.]+:\d+:\s*', '', s.strip())
         return re.sub(r'\s+', ' ', s)
-    allowed = set(norm(l) for l in open(p, encoding='utf-8') if l.strip() and not l.startswith('#'))
+    allowed = set(norm(l) for l in open(p, encoding='utf-8') if l.strip() and not (l.startswith('#') and not l.startswith('#[')))
     return ['assumption not in trusted.txt: %s' % f for f in found if norm(f) not in allowed]
 
 
@@ -805,39 +805,71 @@ def run(prop, units, scratch, tier, repo):
     return done()
 
 
-def _counterexample(u, h, entry, copy, target, env, repo, scratch):
-    cexh = h.get('cex_harness') or h['name']
-    spec = h.get('cex_inputs') or h.get('inputs') or []
-    cmd = _kani_cmd(u, cexh, target, list(h['flags']) + ['-Z', 'concrete-playback', '--concrete-playback=print'])
+def _playback(u, hname, flags, copy, target, env):
+    cmd = _kani_cmd(u, hname, target, list(flags) + ['-Z', 'concrete-playback', '--concrete-playback=print'])
     rc, out, secs = _run(cmd, os.path.join(copy, u['crate_dir']), env, CEX_TIMEOUT, MEM_KB)
-    tests = parse_playback(out) if rc is not None else []
-    tests = [t for t in tests if t[0] != 'cover']
-    if not tests and cexh != h['name']:
-        # the twin did not fail (or timed out): fall back to playback on the deciding harness itself
-        cmd = _kani_cmd(u, h['name'], target, list(h['flags']) + ['-Z', 'concrete-playback', '--concrete-playback=print'])
-        rc, out, secs2 = _run(cmd, os.path.join(copy, u['crate_dir']), env, CEX_TIMEOUT, MEM_KB)
-        secs += secs2
-        tests = [t for t in (parse_playback(out) if rc is not None else []) if t[0] != 'cover']
-        cexh = h['name']
-    if not tests:
-        entry['replay_result'] = 'concrete playback gave no values (%s, %.0fs)' % ('timeout' if rc is None else 'rc=%s' % rc, secs)
-        return
-    cls, desc, vals = tests[0]
-    dec = decode_inputs(spec, vals)
-    if dec is None:
-        entry['concrete'] = {'harness': cexh, 'check': desc, 'raw_bytes': vals, 'values': None,
-                             'note': 'could not map playback bytes to the declared inputs %s' % spec}
-        entry['replay_result'] = 'playback values could not be decoded against `inputs`'
-        return
-    values, readable = dec
-    entry['concrete'] = {'harness': cexh, 'check': re.sub(r'\s+', ' ', desc)[:300], 'values': values, 'readable': readable,
-                         'playback_seconds': round(secs, 1)}
+    return (parse_playback(out) if rc is not None else []), secs, rc
+
+
+def _candidates(tests, failed_descs):
+    """Order playback tests: those generated for a check that failed in the deciding run first, then other
+    property checks, then cover tests.  Kani de-duplicates generated tests by their VALUES, so a failing
+    input that coincides with the reach-cover witness shows up only under the cover: cover inputs are
+    therefore kept as (last) candidates — the replay on the real code decides whether an input fails."""
+    norm = lambda d: re.sub(r'\s+', ' ', d).strip().strip('"')
+    fd = set(norm(d) for d in failed_descs)
+    a = [t for t in tests if t[0] != 'cover' and norm(t[1]) in fd and 'placeholder message' not in t[1]]
+    b = [t for t in tests if t[0] != 'cover' and t not in a]
+    c = [t for t in tests if t[0] == 'cover']
+    seen, res = set(), []
+    for t in a + b + c:
+        k = json.dumps(t[2])
+        if k not in seen:
+            seen.add(k)
+            res.append(t)
+    return res
+
+
+def _counterexample(u, h, entry, copy, target, env, repo, scratch):
+    """Concrete values for a failed harness (Kani concrete playback), then replay on the real code."""
+    spec = h.get('inputs') or []
     work = os.path.join(scratch, 'replay-%s-%s' % (u['name'], h['name']))
-    os.makedirs(work, exist_ok=True)
-    got, text = run_replay(u, h, values, repo, work, os.path.join(scratch, 'replay-target'))
-    shutil.rmtree(work, ignore_errors=True)
-    entry['replay_reproduced'] = bool(got)
-    entry['replay_result'] = text if got is not None else 'replay could not run: ' + text
+    rtarget = os.path.join(scratch, 'replay-target')
+    sources = [h['cex_harness'], h['name']] if h.get('cex_harness') else [h['name']]
+    first = None
+    total = 0.0
+    note = ''
+    for src in sources:
+        tests, secs, rc = _playback(u, src, h['flags'], copy, target, env)
+        total += secs
+        if rc is None:
+            note = 'concrete playback of %s timed out after %ds' % (src, CEX_TIMEOUT)
+        for cls, desc, vals in _candidates(tests, entry.get('failed_checks', []))[:3]:
+            dec = decode_inputs(spec, vals)
+            if dec is None:
+                if first is None:
+                    first = ({'harness': src, 'check': re.sub(r'\s+', ' ', desc)[:300], 'values': None, 'raw_bytes': vals,
+                              'note': 'could not map playback bytes to the declared inputs %s' % spec},
+                             False, 'playback values could not be decoded against `inputs`')
+                continue
+            values, readable = dec
+            conc = {'harness': src, 'check': re.sub(r'\s+', ' ', desc)[:300], 'check_class': cls, 'values': values,
+                    'readable': readable, 'playback_seconds': round(total, 1)}
+            os.makedirs(work, exist_ok=True)
+            got, text = run_replay(u, h, values, repo, work, rtarget)
+            shutil.rmtree(work, ignore_errors=True)
+            res = (conc, bool(got), text if got is not None else 'replay could not run: ' + text)
+            if got:
+                entry['concrete'], entry['replay_reproduced'], entry['replay_result'] = res
+                return
+            if first is None or first[0].get('values') is None:
+                first = res
+    if first is not None:
+        entry['concrete'], entry['replay_reproduced'], entry['replay_result'] = first
+        if first[0].get('values') is None:
+            entry['concrete'] = None if not first[0].get('raw_bytes') else first[0]
+    else:
+        entry['replay_result'] = note or 'concrete playback gave no values (%.0fs)' % total
 
 
 if __name__ == '__main__':   # python3 lib/kani_lane.py <prop> [tier]  — list what would run
